@@ -427,6 +427,13 @@ def to_int(I: Any, args: List[Term], kwargs: Dict[str, Term], st: Any, ctx: Any,
         return c(int(v[1]))
     if is_int_term(v):
         return v
+    if v[0] == "app" and v[1] == "truediv" and len(v) == 4 and is_c(v[3]) and isinstance(v[3][1], int) and v[3][1] > 0:
+        a, k = v[2], v[3][1]
+        if a[0] in ("lin", "len", "c") or is_int_term(a):
+            la = Lin.of(a)
+            if all(isinstance(q, int) and q % k == 0 for q in la.coef.values()) and isinstance(la.const, int) and la.const % k == 0:
+                # exact: every coefficient divisible, so int(a / k) == a // k == a/k
+                return Lin({t: q // k for t, q in la.coef.items()}, la.const // k).term()
     return app("int", [v])
 
 
@@ -548,9 +555,11 @@ def _condlike(v: Term) -> bool:
 def _textlike(v: Term) -> bool:
     if T.is_seq(v):
         return True
+    if v[0] == "lookup" and all(is_c(x) and isinstance(x[1], str) for _, x in v[1]):
+        return True
     if is_c(v) and isinstance(v[1], (str, bytes)):
         return True
-    if v[0] == "sym" and (v[2] in ("str", "hex", "bytes", "hexbytes") or (isinstance(v[2], tuple) and v[2] and v[2][0] in ("hexw", "hexbw"))):
+    if v[0] == "sym" and (v[2] in ("str", "hex", "bytes", "hexbytes") or (isinstance(v[2], tuple) and v[2] and v[2][0] in ("hexw", "hexbw", "bytesr"))):
         return True
     if v[0] == "eattr" and len(v) > 3 and v[3] and all(isinstance(x, str) for x in v[3]):
         return True
@@ -831,6 +840,14 @@ def pad(s: Term, width: Term, fill: Term, side: str) -> Term:
             return s
         padatom = ("L", f * (w - cw))
         return T.seq(s[1], s[2] + (padatom,) if side == "ljust" else (padatom,) + s[2])
+    fixed = None
+    if len(s[2]) == 1 and s[2][0][0] == "fmt" and re.fullmatch(r"0?\d*[xXd]?", s[2][0][1]):
+        rng = T.int_range(s[2][0][2])
+        base = 16 if s[2][0][1][-1:] in ("x", "X") else 10
+        if rng is not None and rng[0] is not None and rng[1] is not None and 0 <= rng[0] and rng[1] < base ** w:
+            fixed = w
+    if fixed is not None:
+        return ("seq", s[1], (("padded", side, s[2][0], w, f),))
     return ("seq", s[1], (("txt", ("app", side, s, c(w), c(f))),))
 
 
@@ -907,7 +924,7 @@ def call_method(I: Any, recv: Term, name: str, args: List[Term], kwargs: Dict[st
                 p0 = len(st.pending)
                 v = dict_lookup(I, ho.items, args[0], st, where, I.describe(recv, st))
                 # .get never raises: turn the KeyError guard into a default
-                conds = [cnd for (e, cnd, w) in st.pending[p0:] if e == "KeyError"]
+                conds = [cnd for (e, cnd, w, nev) in st.pending[p0:] if e == "KeyError"]
                 del st.pending[p0:]
                 default = args[1] if len(args) > 1 else c(None)
                 if not conds:
@@ -980,7 +997,7 @@ def call_method(I: Any, recv: Term, name: str, args: List[Term], kwargs: Dict[st
         if name == "get":
             p0 = len(st.pending)
             v = dict_lookup(I, list(recv[1]), args[0], st, where, "const-dict")
-            conds = [cnd for (e, cnd, w) in st.pending[p0:] if e == "KeyError"]
+            conds = [cnd for (e, cnd, w, nev) in st.pending[p0:] if e == "KeyError"]
             del st.pending[p0:]
             default = args[1] if len(args) > 1 else c(None)
             from .interp import ite
@@ -1010,7 +1027,7 @@ def int_to_bytes(I: Any, v: Term, args: List[Term], kwargs: Dict[str, Term], st:
         return top("to_bytes length not modelled")
     p0 = len(st.pending)
     r = struct_pack(I, [c(("<" if order[1] == "little" else ">") + fmt), v], st, ctx, node)
-    st.pending[p0:] = [("OverflowError" if e == "struct.error" else e, cnd, w) for (e, cnd, w) in st.pending[p0:]]
+    st.pending[p0:] = [("OverflowError" if e == "struct.error" else e, cnd, w, nev) for (e, cnd, w, nev) in st.pending[p0:]]
     return r
 
 
@@ -1092,7 +1109,7 @@ def text_method(I: Any, s: Term, name: str, args: List[Term], kwargs: Dict[str, 
 def _ascii_atom(a: Term) -> bool:
     if a[0] == "L":
         return all(ord(ch) < 128 for ch in a[1])
-    if a[0] in ("hx", "HX", "hbi", "hni", "hexof", "fmt", "rep", "sig"):
+    if a[0] in ("hx", "HX", "hbi", "hni", "hexof", "fmt", "rep", "sig", "padded"):
         return True
     if a[0] in ("upper", "lower"):
         return _ascii_atom(a[1])
@@ -1100,7 +1117,7 @@ def _ascii_atom(a: Term) -> bool:
         return T.is_hex_atom(a)
     if a[0] == "txt":
         x = a[1]
-        if isinstance(x, tuple) and x and x[0] == "eattr":
+        if isinstance(x, tuple) and x and x[0] in ("eattr", "lookup"):
             return True
         if isinstance(x, tuple) and x and x[0] == "app" and x[1] in ("ljust", "rjust", "inet_ntoa", "time.strftime"):
             return True
